@@ -93,11 +93,23 @@ CHECKS.update({
          CSO_NOTE, "§5 C31"),
 })
 
+POOL_NOTE = ("Trusted base: the harness's sequential pool model (written from the property text), plonky2's verifier for the 'verifies' ground truth of catalogue proofs, the interposed CLOCK_MONOTONIC. "
+             "Histories are seeded random over small limits; 'held' means held on the histories generated.")
+POOL_TEXT = ("Histories of 40..200 operations (push of valid/tampered/wrong-length/dummy-key/duplicate-nullifier/new-bucket proofs, evict_settled, evict_older_than, snapshot_batch, remove_bucket, clock advances onto exact window/age boundaries, bucket_stats) run on the real ProofPool under an exact virtual clock; "
+             "after every operation the internal state (hook H5), the return value, the per-thread verification counter and bucket_stats are compared with a sequential reference model. ")
+CHECKS.update({
+ "C19": ("exploration", "runtime history monitor: real pool vs sequential reference model (admission rules and their order)", POOL_TEXT + "C19 reports: admitted/rejected mismatches, rule order observed through the verification counter (full/shape/dummy/budget cost 0, invalid/bucket-limit/duplicate cost exactly 1), any state change after a rejected push.", POOL_NOTE, "§5 C19"),
+ "C20": ("exploration", "runtime history monitor: structural invariants on hooked pool state after every operation", POOL_TEXT + "C20 reports: index != nullifiers of pooled proofs, shared nullifiers, empty buckets, proof in a foreign bucket, limits exceeded, len/num_buckets/bucket_stats (count, saturating volume, oldest age, snapshot age) differing from the pooled contents.", POOL_NOTE, "§5 C20"),
+ "C21": ("exploration", "runtime history monitor: removal paths and snapshots vs reference model", POOL_TEXT + "C21 reports: eviction counts/sets differing from the model, proofs disappearing on non-removal operations, snapshots that are not the oldest min(count,batch) clones in admission order or that remove something, snapshots rejected by the public-batch preflight (hook H4).", POOL_NOTE, "§5 C21"),
+ "C22": ("exploration", "runtime history monitor: verification-call counter vs budget model under an exact virtual clock", POOL_TEXT + "C22 reports: more than one verification per push, verification after budget exhaustion, more than max_verifies calls inside one window, window restarts at the wrong instant (boundary advances of window-1ns / window / window+1ns), verifies_in_window differing from the model.", POOL_NOTE, "§5 C22"),
+})
+
 ENGINES = [
  {"name": "cso", "path": "harness/src/cso.rs", "serves_properties": ["C01","C02","C03","C04","C06","C07","C08","C09","C10","C11","C12","C13","C27","C30","C31","C36"],
   "kind_free_text": "constraint-satisfaction oracle: lenient witness generation + evaluation of every gate constraint with plonky2's own evaluators + confirmation by the real prover/verifier"},
  {"name": "leaf-model", "path": "harness/src/leaf.rs", "serves_properties": ["C01","C02","C03","C04","C05","C27"], "kind_free_text": "independent executable model of the leaf relation"},
  {"name": "pure-models", "path": "harness/src/pure.rs, harness/src/policy.rs", "serves_properties": ["C24","C25","C26","C28","C29","C35"], "kind_free_text": "reference models + catch_unwind + allocation counter over pure functions and entry points"},
+ {"name": "pool-model + vclock", "path": "harness/src/poolcheck.rs, harness/src/vclock.rs", "serves_properties": ["C19","C20","C21","C22"], "kind_free_text": "sequential reference model of the pool; clock_gettime interposition giving an exact thread-local virtual monotonic clock"},
  {"name": "hints", "path": "harness/src/hints.rs", "serves_properties": ["C01","C02","C03","C04","C10","C30","C31"], "kind_free_text": "hint-override adversary: per-generator and pairwise overrides with semantic families"},
  {"name": "heapmon", "path": "harness/src/heapmon.rs", "serves_properties": ["C17","C25","C26","C28","C29","C33","C35"], "kind_free_text": "global-allocator wrapper: per-thread byte counter and secret scanner at dealloc/realloc"},
  {"name": "wrapper-models", "path": "harness/src/wrap.rs", "serves_properties": ["C06","C07","C08","C09","C12","C13","C36","C34"], "kind_free_text": "independent executable models of both aggregation wrappers; wrapper-only / full recursive circuit forms"},
